@@ -122,7 +122,11 @@ pub fn edit(src: &str, rng: &mut Rng, log: &mut Vec<String>) -> String {
 }
 
 pub fn judge(text: &str, history_seed: u64, wd: &Workdir, rep: &mut Rep, second_text: Option<&str>) {
-    let spec_force = SetSpec { builder: 0, ps: Some(true), force: Some(true), ..Default::default() };
+    // a third of the histories run with builder_loc_info (every struct then comes as `XBase` + alias `X = ValLoc<XBase>`)
+    let spec_force = SetSpec { builder: 0, ps: Some(true), force: Some(true), loc_info: history_seed % 3 == 0, ..Default::default() };
+    if spec_force.loc_info {
+        rep.count("histories_with_loc_info", 1);
+    }
     let spec_keep = SetSpec { force: Some(false), ..spec_force.clone() };
     let case = |extra: Value| json!({"grammar": text, "second_grammar": second_text, "history_seed": history_seed.to_string(), "extra": extra});
     let sig = |k: &str| format!("{}:{}:{}", k, fnv(text), history_seed);
